@@ -122,6 +122,10 @@ Definition run (i : ops) : outs :=
     [MAX_PATH_RESPONSES], never exceeds the number of distinct remotes pushed so far, a push
     changes it by at most +1, a successful pop by exactly -1; a token handed out by a pop was
     pushed for that remote. *)
+(** the bound the property names; the generated constant is measured on the code under test, so the
+    oracle also checks the literal *)
+Definition PINNED_MAX_PATH_RESPONSES : Z := 16.
+
 Fixpoint oracle_go (i : ops) (o : outs) (prev : Z) (pushed : list (Z * Z)) : bool :=
   match i, o with
   | [], [] => true
@@ -129,7 +133,7 @@ Fixpoint oracle_go (i : ops) (o : outs) (prev : Z) (pushed : list (Z * Z)) : boo
       match out with
       | len :: tl =>
           let pushed' := match op with [0; _; tk; r] => (tk, r) :: pushed | _ => pushed end in
-          (0 <=? len) && (len <=? MAX_PATH_RESPONSES)
+          (0 <=? len) && (len <=? MAX_PATH_RESPONSES) && (len <=? PINNED_MAX_PATH_RESPONSES)
           && match op, tl with
              | 0 :: _, [] => (prev <=? len) && (len <=? prev + 1)
              | [1; r], [0] => len =? prev
